@@ -5,7 +5,7 @@
    big-endian value of its bytes, traffic type as uint8 of the index, ...); (2) handleReq's loop over
    the RPC endpoints with its classification of error texts. *)
 From Coq Require Import ZArith NArith List Bool Lia.
-From DosVerif Require Import Base.Val Models.Bn Models.Abi Models.Adaptor Proofs.AbiProofs Proofs.AdaptorProofs.
+From DosVerif Require Import Base.Val Models.Bn Models.Abi Models.Adaptor Models.AdaptorGas Proofs.AbiProofs Proofs.AdaptorProofs Proofs.AdaptorGasProofs.
 Import ListNotations.
 Open Scope Z_scope.
 
@@ -102,6 +102,38 @@ Theorem C19_write_after_reads :
   exists outs, hrun s (map HRead rss ++ [HWrite os]) = (fst (write1 s os), outs ++ [snd (write1 s os)]).
 Proof. exact write_after_reads. Qed.
 Print Assumptions C19_write_after_reads.
+
+(* ---- the gas settings (Models/AdaptorGas.v): per RPC endpoint one proxy and one commit-reveal
+   session whose transact options carry the settings; SetGasPrice / SetGasLimit walk both lists *)
+
+(* the adaptor as connected satisfies the invariant (every session carries the configured setting) *)
+Theorem C19_gas_initial : forall n nonce cfg, wf (g0 n nonce cfg).
+Proof. exact wf_g0. Qed.
+Print Assumptions C19_gas_initial.
+
+(* over ANY history of reads, calls with any outcomes at the endpoints, bursts, reconnects and
+   setting changes, every transaction ANY endpoint receives - first choice or fail-over, proxy or
+   commit-reveal call - carries the setting in force when the call was made: the configuration, or
+   the operator's latest change *)
+Theorem C19_gas_settings_in_force :
+  forall es s, wf s -> outs_ok (g_cfg s) es (snd (grun s es)).
+Proof. exact gas_in_force. Qed.
+Print Assumptions C19_gas_settings_in_force.
+
+(* the settings layer changes nothing else: forgetting the settings, the history is the adaptor
+   history the theorems above speak about *)
+Theorem C19_gas_layer_transparent :
+  forall es s, hrun (g_h s) (omap hev_of es) = (g_h (fst (grun s es)), omap hout_of (snd (grun s es))).
+Proof. exact gas_layer_transparent. Qed.
+Print Assumptions C19_gas_layer_transparent.
+
+Example C19_gas_example :
+  snd (grun (g0 2 7 (5, 6)) [GWrite false [OClosed; OAccept]; GSetGas (8, 9); GReconnect; GWrite true [OOther; OAccept]; GBatch [false; true]])
+  = [GOut (OutWrite [1%nat] (Some OAccept) (Some 7)) [Some (5, 6)]; GOutSet; GOut OutReconnect [];
+     GOut (OutWrite [0; 1]%nat (Some OAccept) (Some 8)) [Some (8, 9); Some (8, 9)];
+     GOut (OutBatch [9; 10]) [Some (8, 9); Some (8, 9)]].
+Proof. vm_compute. reflexivity. Qed.
+Print Assumptions C19_gas_example.
 
 Example C19_history_example :
   hrun (h0 2 7) [HRead [ROtherErr; RVal]; HWrite [OClosed; OAccept]; HBatch 2; HRead [RVal; RClosed]; HWrite [OAccept; OAccept]]
